@@ -19,7 +19,7 @@ from .prog import AnalysisError, unparse
 SAFE = {"reversed": reversed, "range": range, "map": map, "filter": filter, "sum": sum, "min": min, "max": max, "abs": abs, "round": round,
         "getattr": getattr, "hasattr": hasattr, "type": type, "dict": dict, "tuple": tuple, "enumerate": enumerate, "zip": zip, "int": int, "float": float,
         "any": any, "all": all, "isinstance": isinstance, "issubclass": issubclass, "callable": callable, "iter": iter, "next": next, "repr": repr, "setattr": setattr,
-        "divmod": divmod, "ord": ord, "chr": chr, "bytes": bytes, "slice": slice, "object": object, "print": (lambda *a, **k: None), "len": len, "str": str, "bool": bool, "frozenset": frozenset,
+        "divmod": divmod, "id": id, "hash": hash, "ord": ord, "chr": chr, "bytes": bytes, "slice": slice, "object": object, "print": (lambda *a, **k: None), "len": len, "str": str, "bool": bool, "frozenset": frozenset,
         "set": set, "list": list, "sorted": sorted, "None": None, "True": True, "False": False}
 
 
